@@ -147,32 +147,41 @@ func c11Run(f func() (any, error)) (r c11Res) {
 	return c11Res{class: "ok", obs: c11Obs(v)}
 }
 
+var c11Scratch []byte
+
 // c11Decode runs the hand-written and the schema-driven decoder of one kind on the same bytes.
 func c11Decode(kind string, raw []byte) (fast, classic c11Res, ok bool) {
 	// every decoder gets its own copy: neither may influence the other through aliasing
-	a := append([]byte(nil), raw...)
+	// the fast side goes through the PUBLIC entry point (DecodeX, what the server and the tools call) and reads from ONE
+	// buffer that is overwritten in place from node to node, as a CAR reader's section buffer is: a decoder that
+	// remembers its input by reference would answer with an earlier node
+	if cap(c11Scratch) < len(raw) {
+		c11Scratch = make([]byte, 0, 2*len(raw)+64)
+	}
+	a := c11Scratch[:len(raw)]
+	copy(a, raw)
 	b := append([]byte(nil), raw...)
 	switch kind {
 	case "Transaction":
-		fast = c11Run(func() (any, error) { return _DecodeTransactionFast(a) })
+		fast = c11Run(func() (any, error) { return DecodeTransaction(a) })
 		classic = c11Run(func() (any, error) { return _DecodeTransactionClassic(b) })
 	case "Entry":
-		fast = c11Run(func() (any, error) { return _DecodeEntryFast(a) })
+		fast = c11Run(func() (any, error) { return DecodeEntry(a) })
 		classic = c11Run(func() (any, error) { return _DecodeEntryClassic(b) })
 	case "Block":
-		fast = c11Run(func() (any, error) { return _DecodeBlockFast(a) })
+		fast = c11Run(func() (any, error) { return DecodeBlock(a) })
 		classic = c11Run(func() (any, error) { return _DecodeBlockClassic(b) })
 	case "Subset":
-		fast = c11Run(func() (any, error) { return _DecodeSubsetFast(a) })
+		fast = c11Run(func() (any, error) { return DecodeSubset(a) })
 		classic = c11Run(func() (any, error) { return _DecodeSubsetClassic(b) })
 	case "Epoch":
-		fast = c11Run(func() (any, error) { return _DecodeEpochFast(a) })
+		fast = c11Run(func() (any, error) { return DecodeEpoch(a) })
 		classic = c11Run(func() (any, error) { return _DecodeEpochClassic(b) })
 	case "Rewards":
-		fast = c11Run(func() (any, error) { return _DecodeRewardsFast(a) })
+		fast = c11Run(func() (any, error) { return DecodeRewards(a) })
 		classic = c11Run(func() (any, error) { return _DecodeRewardsClassic(b) })
 	case "DataFrame":
-		fast = c11Run(func() (any, error) { return _DecodeDataFrameFast(a) })
+		fast = c11Run(func() (any, error) { return DecodeDataFrame(a) })
 		classic = c11Run(func() (any, error) { return _DecodeDataFrameClassic(b) })
 	default:
 		return fast, classic, false
